@@ -24,7 +24,11 @@ Inductive op :=
 | Revoke (c t : token)      (* DELETE /access/t, credential c *)
 | AuthHttp (t : token)      (* any route under /api/v1 with "Bearer t" *)
 | AuthWs (t : token)        (* centrifuge connect with token t *)
-| Restart.                  (* process restart: the table is on disk, everything else is rebuilt *)
+| Restart                   (* process restart: the table is on disk, everything else is rebuilt *)
+| CreateFail (c t : token)  (* POST /access while the COMMIT of the INSERT fails (turned into a ROLLBACK) *)
+| RevokeFail (c t : token)  (* DELETE /access/t while the COMMIT of the DELETE fails *)
+| Race (t : token).         (* an authenticate(t) over HTTP is in flight - its repository lookup has returned -
+                               while DELETE /access/t (admin) runs to completion; then the authenticate answers *)
 
 Definition mem (t : token) (st : list token) : bool := existsb (String.eqb t) st.
 
@@ -47,6 +51,8 @@ Definition step (admin : token) (st : list token) (o : op) : list token :=
   | Create c t => if is_admin (get_token admin st c) then insert t st else st
   | Revoke c t => if is_admin (get_token admin st c) then delete t st else st
   | AuthHttp _ | AuthWs _ | Restart => st
+  | CreateFail _ _ | RevokeFail _ _ => st           (* tokens.go returns the COMMIT error; nothing was stored/deleted *)
+  | Race t => delete t st
   end.
 
 Definition run (admin : token) (st : list token) (ops : list op) : list token :=
@@ -56,7 +62,9 @@ Inductive outcome :=
 | OCreated | ORevoked | ODenied        (* 200 / 200 / 401 *)
 | ORole (r : role)                     (* GET /access: 200 + isAdmin, or 401 *)
 | OWs (ok : bool)                      (* connect accepted / DisconnectInvalidToken *)
-| ORestarted.
+| ORestarted
+| OFailed                              (* the storage error is reported (400 ErrCreateToken / ErrDeleteToken) *)
+| ORace (r : role).                    (* answer of the in-flight authenticate (the revoke itself answers 200) *)
 
 Definition outcome_of (admin : token) (st : list token) (o : op) : outcome :=
   match o with
@@ -65,6 +73,8 @@ Definition outcome_of (admin : token) (st : list token) (o : op) : outcome :=
   | AuthHttp t => ORole (get_token admin st t)
   | AuthWs t => OWs (authenticated (get_token admin st t))
   | Restart => ORestarted
+  | CreateFail c _ | RevokeFail c _ => if is_admin (get_token admin st c) then OFailed else ODenied
+  | Race t => ORace (get_token admin st t)   (* GetToken has one shared-state access, the lookup: it saw the old table *)
   end.
 
 (* outcome of every operation of a sequence, with the state after it *)
@@ -77,14 +87,16 @@ Fixpoint trace (admin : token) (st : list token) (ops : list op) : list (outcome
 (* ---------------- declarative specification (the statement of C10) ---------------- *)
 
 (* "there is an earlier creation of t (by the admin) with no revocation of t (by the admin) after it" *)
+Definition revokes (admin : token) (o : op) (t : token) : Prop := o = Revoke admin t \/ o = Race t.
 Definition issued (admin : token) (ops : list op) (t : token) : Prop :=
-  exists pre post, ops = pre ++ Create admin t :: post /\ ~ In (Revoke admin t) post.
+  exists pre post, ops = pre ++ Create admin t :: post /\ forall o, In o post -> ~ revokes admin o t.
 
 (* executable form: the last admin Create/Revoke that names t decides *)
 Definition mark (admin t : token) (acc : bool) (o : op) : bool :=
   match o with
   | Create c t' => if String.eqb c admin && String.eqb t' t then true else acc
   | Revoke c t' => if String.eqb c admin && String.eqb t' t then false else acc
+  | Race t' => if String.eqb t' t then false else acc
   | _ => acc
   end.
 Definition issuedb (admin : token) (ops : list op) (t : token) : bool :=
@@ -101,7 +113,14 @@ Definition spec_outcome (admin : token) (pre : list op) (o : op) : outcome :=
   | AuthHttp t => ORole (spec_role admin pre t)
   | AuthWs t => OWs (authenticated (spec_role admin pre t))
   | Restart => ORestarted
+  | CreateFail c _ | RevokeFail c _ => if String.eqb c admin then OFailed else ODenied
+  | Race t => ORace (spec_role admin pre t)
   end.
+
+(* the answers the statement allows to the in-flight authenticate of [Race t]: it overlaps the revoke, so it may be
+   linearised before it (the validity before) or after it (refused, unless t is the admin token) *)
+Definition race_allowed (admin : token) (pre : list op) (t : token) (r : role) : Prop :=
+  r = spec_role admin pre t \/ r = spec_role admin (pre ++ [Revoke admin t]) t.
 
 Fixpoint spec_trace (admin : token) (pre rest : list op) : list outcome :=
   match rest with
@@ -120,14 +139,15 @@ Fixpoint revoked (admin : token) (ops : list op) : list token :=
   match ops with
   | [] => []
   | Revoke c t :: r => if String.eqb c admin then t :: revoked admin r else revoked admin r
+  | Race t :: r => t :: revoked admin r
   | _ :: r => revoked admin r
   end.
 
 (* tokens an operation mentions *)
 Definition mentions (o : op) (t : token) : Prop :=
   match o with
-  | Create c t' | Revoke c t' => c = t \/ t' = t
-  | AuthHttp t' | AuthWs t' => t' = t
+  | Create c t' | Revoke c t' | CreateFail c t' | RevokeFail c t' => c = t \/ t' = t
+  | AuthHttp t' | AuthWs t' | Race t' => t' = t
   | Restart => False
   end.
 
@@ -149,8 +169,15 @@ Definition spec_step (admin : token) (S : token -> Prop) (o : op) : token -> Pro
   match o with
   | Create c t => if String.eqb c admin then (fun x => x = t \/ S x) else S
   | Revoke c t => if String.eqb c admin then (fun x => x <> t /\ S x) else S
+  | Race t => (fun x => x <> t /\ S x)
   | _ => S
   end.
 Definition spec_run (admin : token) (S : token -> Prop) (ops : list op) : token -> Prop :=
   fold_left (spec_step admin) ops S.
 Definition abs (st : list token) : token -> Prop := fun t => In t st.
+
+(* operations that report a storage failure *)
+Definition is_failed (o : op) : bool := match o with CreateFail _ _ | RevokeFail _ _ => true | _ => false end.
+(* the token an operation can affect *)
+Definition target (o : op) : option token :=
+  match o with Create _ t | Revoke _ t | Race t => Some t | _ => None end.
